@@ -176,8 +176,14 @@ class JTfy:
     def __init__(self, mode, content, payload, H):
         self.mode, self.content, self.payload, self._H = mode, content, payload, H
 
+    nested = None
+
     def tagify(self):
         H = self._H
+        if self.nested is not None:
+            inner = self.nested.jsx_tag_create("Preview")(mkdep("d3", H), "p")
+            str(inner)
+            inner.tagify()
         if self.mode == "tag":
             return H.Tag("span", self.content.tagify(), _add_ws=False)
         if self.mode == "str":
@@ -185,7 +191,7 @@ class JTfy:
         return mkdep(self.payload, H)
 
 
-def conc_val(val, H, J, salt):
+def conc_val(val, H, J, salt, alias=None):
     p = val["p"]
     if p == "none":
         return None
@@ -201,17 +207,30 @@ def conc_val(val, H, J, salt):
     if p == "jsx":
         return J.jsx(uncps(val["v"]))
     if p == "list":
-        return [conc_val(x, H, J, salt) for x in val["items"]]
+        return [conc_val(x, H, J, salt, alias) for x in val["items"]]
     if p == "tuple":
-        return tuple(conc_val(x, H, J, salt) for x in val["items"])
+        return tuple(conc_val(x, H, J, salt, alias) for x in val["items"])
     if p == "dict":
-        return {uncps(it["k"]): conc_val(it["val"], H, J, salt) for it in val["items"]}
+        return {uncps(it["k"]): conc_val(it["val"], H, J, salt, alias) for it in val["items"]}
     if p == "node":
-        return build(val["items"][0], H, J, salt)
+        return build(val["items"][0], H, J, salt, alias)
     raise ValueError(p)
 
 
-def build(x, H, J, salt=0):
+def build(x, H, J, salt=0, alias=None):
+    """alias (gamma option): structurally equal tag / component subtrees are ONE object placed several times."""
+    if alias is not None and x["f"] in ("T", "C"):
+        import json as _json
+        key = _json.dumps(x, sort_keys=True)
+        if key in alias:
+            return alias[key]
+        obj = _build(x, H, J, salt, alias)
+        alias[key] = obj
+        return obj
+    return _build(x, H, J, salt, alias)
+
+
+def _build(x, H, J, salt, alias):
     f = x["f"]
     if f == "S":
         return uncps(x["v"])
@@ -219,13 +238,16 @@ def build(x, H, J, salt=0):
         return mkdep(uncps(x["name"]), H)
     if f == "M":
         return H.MetadataNode()
-    kids = [build(k, H, J, salt + 1) for k in x["kids"]]
+    kids = [build(k, H, J, salt + 1, alias) for k in x["kids"]]
     if f == "F":
-        return JTfy(x["mode"], H.TagList(*kids), uncps(x["v"]) if x["mode"] == "str" else uncps(x["name"]), H)
+        t_ = JTfy(x["mode"], H.TagList(*kids), uncps(x["v"]) if x["mode"] == "str" else uncps(x["name"]), H)
+        # gamma option: while it expands, the object converts an unrelated component of its own (a preview, a cache key...)
+        t_.nested = (J if salt % 3 == 0 else None)
+        return t_
     if f == "T":
-        return H.Tag(uncps(x["name"]), *kids, _add_ws=False, **{uncps(p["k"]): conc_val(p["val"], H, J, salt) for p in x["props"]})
+        return H.Tag(uncps(x["name"]), *kids, _add_ws=False, **{uncps(p["k"]): conc_val(p["val"], H, J, salt, alias) for p in x["props"]})
     if f == "C":
-        props = {uncps(p["k"]): conc_val(p["val"], H, J, salt) for p in x["props"]}
+        props = {uncps(p["k"]): conc_val(p["val"], H, J, salt, alias) for p in x["props"]}
         make = J.jsx_tag_create(uncps(x["name"]))
         how = salt % 5
         if how == 0 or not kids:
@@ -408,7 +430,22 @@ class C20(Prop):
     def gens_random(self, tier, rnd):
         gens = []
         for n in range(500 if tier == "quick" else 10000):
-            gens.append({"kind": "conv", "tree": self.rnode(rnd, 1, "C"), "salt": n})
+            t_ = self.rnode(rnd, 1, "C")
+            al = False
+            cands = [k for k in t_["kids"] if k["f"] in ("T", "C")]
+            if cands and rnd.random() < 0.3:
+                # the same tag / component object at a second place: as a child again (wrapped or not), or as a prop value
+                import copy as _copy
+                k = rnd.choice(cands)
+                how = rnd.choice(["child", "wrapped", "prop"])
+                if how == "child":
+                    t_["kids"].append(_copy.deepcopy(k))
+                elif how == "wrapped":
+                    t_["kids"].append({"f": "T", "name": cps("div"), "props": [], "kids": [_copy.deepcopy(k)], "v": [], "mode": ""})
+                elif not any(p["k"] == cps("footer") for p in t_["props"]):
+                    t_["props"].append({"k": cps("footer"), "val": {"p": "node", "v": [], "items": [self.strip_f(_copy.deepcopy(k))]}})
+                al = True
+            gens.append({"kind": "conv", "tree": t_, "salt": n, "alias": al})
         names = ["a", "A", "class_", "onClick", "onclick", "b"]
         for _ in range(200 if tier == "quick" else 2000):
             allowed = rnd.sample(names, rnd.randint(1, 4))
@@ -428,7 +465,7 @@ class C20(Prop):
             return {"k": "allow", "allowed": [cps(a) for a in g["allowed"]], "given": [cps(a) for a in g["given"]],
                     "raised": raised, "gen": g}
         tree = g["tree"]
-        x = build(tree, H, J, g.get("salt", 0))
+        x = build(tree, H, J, g.get("salt", 0), {} if g.get("alias") else None)
         p = JProj(H, J)
         heap0, roots0 = p.snapshot([x])
         events = []
